@@ -47,9 +47,32 @@ class IOOpsMixin:
             self.driver_writes = getattr(self, "driver_writes", set()) | {os.path.relpath(path, self.root)}
         if not op.get("abs", True):
             path = os.path.relpath(path, self._cwd_of(client))
+        if op.get("float_copy"):
+            # the same numbers, every column printed with a decimal point (driver's file)
+            st = dict(self.sc["worlds"][client]["static"])
+            st["int_cols"] = [False] * len(st["int_cols"])
+            in_text = W.static_text(st)
+            path = os.path.join(self._cwd_of(client), "_float_copy.dat")
+            S.write_text(path, in_text)
+            self.driver_writes = getattr(self, "driver_writes", set()) | {os.path.relpath(path, self.root)}
         args = ["fill", "-s", op["system"]] + list(op.get("flags", [])) + [path]
-        main(args=args, standalone_mode=False)
+        self._fill_results = getattr(self, "_fill_results", {})
+        try:
+            main(args=args, standalone_mode=False)
+        except Exception as e:
+            outcome = ("refused" if isinstance(e, Warning) else "error", type(e).__name__, str(e)[:60])
+            self._fill_results[(client, i)] = outcome
+            if not self._injected_now():
+                self._fill_compare(client, i, op, outcome, {})
+            raise
         out = self.stdout._local.buf.getvalue()
+        try:
+            _l1, _l2, cols, rows, _rest = _parse_fill_output(out)
+            outcome = ("ok", {c.lower(): numpy.array([float(r[k]) for r in rows]) for k, c in enumerate(cols) if c.lower() != "v"}, cols)
+        except Exception as e:
+            outcome = ("error", "unparsable-output", str(e)[:60])
+        self._fill_results[(client, i)] = outcome
+        self._fill_compare(client, i, op, outcome, {})
         self.stored[client][op["store"]] = out
         if src is not None:
             self.probe("refill")
@@ -194,6 +217,16 @@ class IOOpsMixin:
             self._fill_results[(client, i)] = outcome
             self._fill_compare(client, i, op, outcome, inputs)
             raise
+        except Exception as e:
+            outcome = ("error", type(e).__name__, str(e)[:60])
+            self._fill_results[(client, i)] = outcome
+            if not self._injected_now():
+                self._fill_compare(client, i, op, outcome, inputs)
+                if op.get("expect_fail") and isinstance(e, (OSError, ValueError)):
+                    self.probe("fill_nonexistent_path_rejected")
+            raise
+        if op.get("expect_fail") and "O-env" in self.oracles:
+            self.verdict("O-env", "C09", client, i, "fill_cij accepted a relations path that does not exist and returned a result")
         self._fill_results[(client, i)] = outcome
         self._fill_compare(client, i, op, outcome, inputs)
         cols = outcome[2]
@@ -238,7 +271,8 @@ class IOOpsMixin:
                 if perm:
                     x = x[perm]
                 scale = max(1.0, float(numpy.max(numpy.abs(x))))
-                if len(x) != len(y) or float(numpy.max(numpy.abs(x - y))) > 1e-9 * scale:
+                tol = 1e-9 * scale if not op.get("printed") else 1.5e-6
+                if len(x) != len(y) or float(numpy.max(numpy.abs(x - y))) > tol:
                     self.verdict("O-env", "C09", client, i, f"fill result depends on presentation ({what}): column {k} differs by {float(numpy.max(numpy.abs(x - y))):.3e}")
                     return
         self.probe("fill_presentation_pair_checked")
@@ -355,10 +389,15 @@ class IOOpsMixin:
                 return
             lines = lines[1:]
         rows = [ln.split() for ln in lines]
+        axis = "cols" if op.get("T") is not None else "rows"
+        known = [truths[v][0][axis] for v in variables if truths.get(v) is not None]
+        if any(truths.get(v) is None for v in variables) or any(k != known[0] for k in known):
+            # a variable that does not resolve to exactly one intact table, or tables on different grids:
+            # "labelled by the other coordinate" has no unambiguous meaning, nothing is demanded
+            self.probe("extract_mixed_or_unresolved_skipped")
+            return
         for vi, var in enumerate(variables):
             tr = truths.get(var)
-            if tr is None:
-                continue
             t, m = tr
             if op.get("T") is not None:
                 y = float(op["T"])
@@ -378,9 +417,6 @@ class IOOpsMixin:
                     continue
                 expected = [row[k] for row in t["vals"]]
                 labels = t["rows"]
-            if vi == len(variables) - 1 or True:
-                # the index is that of the last variable's table; only check it when all tables agree on it
-                pass
             if len(rows) != len(expected):
                 self.verdict("O-extract", "C19", client, i, f"extract returned {len(rows)} rows for {var}, the table has {len(expected)} along that axis")
                 return
@@ -393,10 +429,8 @@ class IOOpsMixin:
                                  f"extract {var} at {'T' if op.get('T') is not None else 'P'}={y}: row {r} is {toks[1 + vi]}, the table's nearest {'row' if op.get('T') is not None else 'column'} (label {t['rows'][k] if op.get('T') is not None else t['cols'][k]}) has {e!r}")
                     return
                 if not TB.label_close(toks[0], labels[r], rel=1e-9):
-                    same_axis = all((truths.get(v2) is None) or (truths[v2][0]["cols" if op.get("T") is not None else "rows"] == labels) for v2 in variables)
-                    if same_axis:
-                        self.verdict("O-extract", "C19", client, i, f"extract row {r} is labelled {toks[0]}, the table's other coordinate is {labels[r]}")
-                        return
+                    self.verdict("O-extract", "C19", client, i, f"extract row {r} is labelled {toks[0]}, the table's other coordinate is {labels[r]}")
+                    return
             self.probe("extract_checked")
             if op.get("T") is not None and not any(abs(y - r) < 1e-12 for r in t["rows"]):
                 self.probe("extract_between_grid_values")
@@ -445,9 +479,13 @@ class IOOpsMixin:
             t, m = tr
             T, P = numpy.array(t["rows"]), numpy.array(t["cols"])
             poly = m.get("poly") if m else None
+            nonfinite = not bool(numpy.isfinite(numpy.array(t["vals"], dtype=float)).all())
             for r, (toks, pt) in enumerate(zip(rows, pts)):
                 p, temp = float(pt[ip]), float(pt[it])
                 tok = toks[len(colnames) + vi]
+                if not (T.min() <= temp <= T.max() and P.min() <= p <= P.max()):
+                    self.probe("geotherm_point_outside_table_skipped")   # the property speaks of paths inside the tabulated range
+                    continue
                 kt = numpy.where(numpy.abs(T - temp) <= 1e-9 * max(1.0, abs(temp)))[0]
                 kp = numpy.where(numpy.abs(P - p) <= 1e-9 * max(1.0, abs(p)))[0]
                 expected = None
@@ -462,7 +500,8 @@ class IOOpsMixin:
                 if not TB.value_close_printed(tok, expected, rel=1e-6):
                     self.verdict("O-extract", "C19", client, i,
                                  f"extract-geotherm {var} at (P={p}, T={temp}): {tok}, " +
-                                 ("table entry at that grid node" if poly is None or (len(kt) == 1 and len(kp) == 1) else "bicubic table's generating polynomial") + f" is {expected!r}")
+                                 ("table entry at that grid node" if poly is None or (len(kt) == 1 and len(kp) == 1) else "bicubic table's generating polynomial") + f" is {expected!r}" +
+                                 (" [the table contains non-finite entries elsewhere]" if nonfinite else ""), table_nonfinite=nonfinite)
                     return
 
     # ------------------------------------------------------------------ run-static (observation only)
